@@ -1192,6 +1192,12 @@ fn builders_fam(c: &mut Case) {
     scverif::builders::case(c, "C13")
 }
 
+/// the uniform api traits (Predictor / SupervisedEstimator / UnsupervisedEstimator / Transformer) behave
+/// exactly like the inherent methods
+fn api_paths_fam(c: &mut Case) {
+    scverif::apipaths::case(c, "C13")
+}
+
 fn main() {
     runner::main(Spec {
         property: "C13",
@@ -1206,6 +1212,7 @@ fn main() {
             "an (oracle, signature) class is reported at most once per case (further failures of the same class in the same case are only counted)",
         ],
         families: vec![
+            Family::new("api_paths", 300, 3000, api_paths_fam),
             Family::new("builders", 300, 3000, builders_fam),
             Family::new("blobs", 2500, 40000, blobs),
             Family::new("chains", 2500, 40000, chains),
